@@ -57,6 +57,15 @@ func (e *Engine) VerifyFunc(fn *ssa.Function, c *Contract) (res *FuncResult) {
 		known, sorts = fx.knownComps, fx.compSorts
 		if pass == 1 {
 			fx.buildScripts()
+			if fx.topFrame != nil {
+				ri := &ReplayInfo{Fn: fn, Params: fx.topFrame.params}
+				if t, ok := fx.epochConsts["e0|M:bv8"]; ok {
+					ri.MemBV8 = t.S
+				}
+				for _, ob := range fx.obs {
+					ob.Replay = ri
+				}
+			}
 			res.Obligations = fx.obs
 			res.UnknownCalls = fx.unknownCalls
 			for a := range fx.usesAx {
@@ -200,6 +209,8 @@ func (fx *FX) runTop() (errmsg string) {
 			for j, cl := range c.Ensures {
 				g := fx.evalBool(env, cl.Expr)
 				fx.oblige(x.st, "post", fmt.Sprintf("ensures#%d%s@ret#%d", j+1, lbl(cl), x.idx+1), cl.Text, g, x.pos, propsOr(cl.Props, c.Props))
+				fx.obs[len(fx.obs)-1].ClauseExpr = cl.Expr
+				fx.obs[len(fx.obs)-1].ResultVals = rs
 			}
 			fx.frameObligations(fx.oldState, x)
 			fx.typeInvObligations(fr, x)
